@@ -793,7 +793,7 @@ func ruleTempFilePairing(c *Ctx, rule string) {
 					failed := false
 					if errv != nil {
 						for _, bf := range branchesAt(rb) {
-							if (bf.cond.X == ssa.Value(errv) && isNilConst(bf.cond.Y)) || (bf.cond.Y == ssa.Value(errv) && isNilConst(bf.cond.X)) {
+							if (isValueOrFreshLoad(bf.cond.X, errv) && isNilConst(bf.cond.Y)) || (isValueOrFreshLoad(bf.cond.Y, errv) && isNilConst(bf.cond.X)) {
 								if effectiveOp(bf, true) == token.NEQ {
 									failed = true
 								}
@@ -1491,6 +1491,30 @@ func ruleIndexSpace(c *Ctx, rule string) {
 			}
 		}
 	}
+	// parameters used as the bounds of a cut of the letters (letters := s.Seq[start:end]) are subscripts too
+	for _, b := range fn.Blocks {
+		for _, ins := range b.Instrs {
+			sl, ok := ins.(*ssa.Slice)
+			if !ok {
+				continue
+			}
+			ld, ok := sl.X.(*ssa.UnOp)
+			if !ok || ld.Op != token.MUL {
+				continue
+			}
+			fa, ok := ld.X.(*ssa.FieldAddr)
+			if !ok || structFieldName(fa.X.Type(), fa.Field) != "Seq" {
+				continue
+			}
+			for _, bd := range []ssa.Value{sl.Low, sl.High} {
+				if prm, ok := bd.(*ssa.Parameter); ok {
+					if i := paramIndex(fn, prm); i >= 0 {
+						idxParam[i] = true
+					}
+				}
+			}
+		}
+	}
 	// integer parameters only
 	for i := range idxParam {
 		if b, ok := fn.Params[i].Type().Underlying().(*types.Basic); !ok || b.Info()&types.IsInteger == 0 {
@@ -1807,6 +1831,53 @@ func byteSliceLiteral(v ssa.Value) []byte {
 		if x.Value != nil && x.Value.Kind() == constant.String {
 			return []byte(constant.StringVal(x.Value))
 		}
+	case *ssa.UnOp:
+		// a package-level variable holding the literal (var metaPrefix = []byte("##")) that nothing writes
+		g, ok := x.X.(*ssa.Global)
+		if !ok || x.Op != token.MUL || g.Pkg == nil {
+			return nil
+		}
+		init := g.Pkg.Func("init")
+		if init == nil || storedOutsideInit(g, init) {
+			return nil
+		}
+		var val ssa.Value
+		n := 0
+		for _, b := range init.Blocks {
+			for _, ins := range b.Instrs {
+				if st, ok := ins.(*ssa.Store); ok && st.Addr == ssa.Value(g) {
+					val = st.Val
+					n++
+				}
+			}
+		}
+		if n != 1 {
+			return nil
+		}
+		// no element of it is written through a loaded copy of the slice
+		for _, m := range g.Pkg.Members {
+			fn, ok := m.(*ssa.Function)
+			if !ok {
+				continue
+			}
+			fns := append([]*ssa.Function{fn}, fn.AnonFuncs...)
+			for _, f := range fns {
+				for _, b := range f.Blocks {
+					for _, ins := range b.Instrs {
+						st, ok := ins.(*ssa.Store)
+						if !ok {
+							continue
+						}
+						if ia, ok := st.Addr.(*ssa.IndexAddr); ok {
+							if ld, ok := ia.X.(*ssa.UnOp); ok && ld.X == ssa.Value(g) {
+								return nil
+							}
+						}
+					}
+				}
+			}
+		}
+		return byteSliceLiteral(val)
 	}
 	return nil
 }
@@ -1990,6 +2061,27 @@ func ruleSignRound(c *Ctx, rule string) {
 							walk(e, d+1)
 						}
 					case *ssa.BinOp:
+						// Q + math.Copysign(0.5, Q): half a unit with the sign of the value being rounded
+						if x.Op == token.ADD {
+							for i, side := range []ssa.Value{x.X, x.Y} {
+								other := []ssa.Value{x.Y, x.X}[i]
+								call, ok := side.(*ssa.Call)
+								if !ok {
+									continue
+								}
+								g := call.Call.StaticCallee()
+								if g == nil || g.Pkg == nil || g.Pkg.Pkg.Path() != "math" || g.Name() != "Copysign" {
+									continue
+								}
+								if k, ok := call.Call.Args[0].(*ssa.Const); ok && k.Value != nil && k.Value.ExactString() == "1/2" {
+									if call.Call.Args[1] == other {
+										round = true
+									} else {
+										plus = true // the sign is taken from something else: no better than a fixed half
+									}
+								}
+							}
+						}
 						if k, ok := x.Y.(*ssa.Const); ok && k.Value != nil && k.Value.ExactString() == "1/2" {
 							if x.Op == token.ADD {
 								plus = true
@@ -2042,6 +2134,43 @@ func ruleSignRound(c *Ctx, rule string) {
 								break
 							}
 						}
+					}
+				}
+				// one half only, added on the arm of a sign test of the value being rounded (two returns:
+				// `if !(Q > 0) { return T(Q - 0.5) }; return T(Q + 0.5)`)
+				if !round && plus != minus && len(halves) > 0 {
+					signed := true
+					for _, h := range halves {
+						okHere := false
+						for _, bf := range branchesAt(cv.Block()) {
+							var op token.Token
+							switch {
+							case bf.cond.X == h.X:
+								if k, isK := bf.cond.Y.(*ssa.Const); !isK || k.Value == nil || constant.Sign(constant.ToFloat(k.Value)) != 0 {
+									continue
+								}
+								op = effectiveOp(bf, true)
+							case bf.cond.Y == h.X:
+								if k, isK := bf.cond.X.(*ssa.Const); !isK || k.Value == nil || constant.Sign(constant.ToFloat(k.Value)) != 0 {
+									continue
+								}
+								op = effectiveOp(bf, false)
+							default:
+								continue
+							}
+							if h.Op == token.ADD && (op == token.GTR || op == token.GEQ) {
+								okHere = true
+							}
+							if h.Op == token.SUB && (op == token.LSS || op == token.LEQ) {
+								okHere = true
+							}
+						}
+						if !okHere {
+							signed = false
+						}
+					}
+					if signed {
+						round = true
 					}
 				}
 				switch {
@@ -2105,4 +2234,32 @@ func boundedOnEdge(v ssa.Value, pred, succ *ssa.BasicBlock) bool {
 		}
 	}
 	return lower && upper
+}
+
+// isValueOrFreshLoad: v is the value itself, or a load of a local variable
+// made in the block where the value was stored into it, after that store and
+// before any other store to the variable (err is a variable a deferred closure
+// captures: `tf, err = TempFile(); if err != nil`).
+func isValueOrFreshLoad(v, stored ssa.Value) bool {
+	if v == stored {
+		return true
+	}
+	ld, ok := v.(*ssa.UnOp)
+	if !ok || ld.Op != token.MUL {
+		return false
+	}
+	al, ok := ld.X.(*ssa.Alloc)
+	if !ok {
+		return false
+	}
+	seenStore := false
+	for _, ins := range ld.Block().Instrs {
+		if ins == ssa.Instruction(ld) {
+			return seenStore
+		}
+		if st, ok := ins.(*ssa.Store); ok && st.Addr == ssa.Value(al) {
+			seenStore = st.Val == stored
+		}
+	}
+	return false
 }
